@@ -40,9 +40,12 @@ def rangeMatch (s : Str) : Option (Str × Str) :=
   if '\n' ∈ s then none else splitLastDots s
 
 /-- mirrors `str.endswith('..')` -/
-def endsDots (s : Str) : Bool := ['.', '.'].isSuffixOf s
+def endsDots (s : Str) : Bool := s.getLast? == some '.' && s.dropLast.getLast? == some '.'
 /-- mirrors `str.startswith('..')` -/
-def startsDots (s : Str) : Bool := ['.', '.'].isPrefixOf s
+def startsDots (s : Str) : Bool :=
+  match s with
+  | a :: b :: _ => a == '.' && b == '.'
+  | _ => false
 
 /-- mirrors pywbem/_valuemapping.py: ValueMapping._to_int -/
 def toInt (s : Str) : Except PyExc Int :=
@@ -78,27 +81,32 @@ def hiOpen (T : IntType) (vmap : List Str) (i : Nat)
         | .ok (nl, _) => .ok (nl - 1)
         | .error e => .error e
 
-/-- mirrors pywbem/_valuemapping.py: ValueMapping._values_tuple (without the Values string, which the
-    caller takes from values_list[i]).  `fuel` = remaining Python recursion depth; running out of it
-    is RecursionError.  Theorem `C20_values_tuple_terminates`: length+1 always suffices. -/
+/-- mirrors pywbem/_valuemapping.py: the body of ValueMapping._values_tuple (without the Values string,
+    which the caller takes from values_list[i]); `rec` = the recursive call -/
+def tupleBody (T : IntType) (vmap : List Str) (rec : Nat → Except PyExc (Int × Int)) (i : Nat) :
+    Except PyExc (Int × Int) :=
+  match vmap[i]? with
+  | none => .error .indexError
+  | some s =>
+    match rangeMatch s with
+    | none =>
+      match toInt s with
+      | .ok v => .ok (v, v)
+      | .error e => .error e
+    | some (los, his) =>
+      match (if los = [] then loOpen T vmap i rec else toInt los) with
+      | .error e => .error e
+      | .ok lo =>
+        match (if his = [] then hiOpen T vmap i rec else toInt his) with
+        | .error e => .error e
+        | .ok hi => .ok (lo, hi)
+
+/-- mirrors pywbem/_valuemapping.py: ValueMapping._values_tuple.  `fuel` = remaining Python recursion
+    depth; running out of it is RecursionError.  Theorem `C20_values_tuple_terminates`: length+1
+    always suffices. -/
 def valuesTuple (T : IntType) (vmap : List Str) : Nat → Nat → Except PyExc (Int × Int)
   | 0, _ => .error .recursionError
-  | fuel + 1, i =>
-    match vmap[i]? with
-    | none => .error .indexError
-    | some s =>
-      match rangeMatch s with
-      | none =>
-        match toInt s with
-        | .ok v => .ok (v, v)
-        | .error e => .error e
-      | some (los, his) =>
-        match (if los = [] then loOpen T vmap i (fun j => valuesTuple T vmap fuel j) else toInt los) with
-        | .error e => .error e
-        | .ok lo =>
-          match (if his = [] then hiOpen T vmap i (fun j => valuesTuple T vmap fuel j) else toInt his) with
-          | .error e => .error e
-          | .ok hi => .ok (lo, hi)
+  | fuel + 1, i => tupleBody T vmap (fun j => valuesTuple T vmap fuel j) i
 
 /-- the same function WITHOUT the two guards = the code before the fix (kept only for the
     negation witness `C20_unguarded_recursion_diverges`) -/
@@ -160,24 +168,39 @@ structure VM where
 /-- the recursion budget the model grants: one more than the number of ValueMap entries -/
 def fuelFor (vmap : List Str) : Nat := vmap.length + 1
 
+/-- a resolved entry: none = the unclaimed marker "..", some (lo, hi) = the values it claims -/
+abbrev Ent := Option (Int × Int)
+
+/-- mirrors _create_for_element, loop body: `if valuemap_str == '..'` … `else: lo, hi, _ = vm._values_tuple(…)` -/
+def entAt (T : IntType) (vmap : List Str) (i : Nat) (s : Str) : Except PyExc Ent :=
+  if s = ['.', '.'] then .ok none
+  else
+    match valuesTuple T vmap (fuelFor vmap) i with
+    | .error e => .error e
+    | .ok p => .ok (some p)
+
+/-- mirrors _create_for_element, loop body: the table updates for one entry -/
+def addEnt (vm : VM) (e : Ent) (vs : Str) : VM :=
+  match e with
+  | none =>
+    { vm with unclaimed := some vs, v2b := dictSet vm.v2b vs .unclaimed,
+              items := vm.items ++ [(.unclaimed, vs)] }
+  | some (lo, hi) =>
+    if lo = hi then
+      { vm with single := dictSet vm.single lo vs, v2b := dictSet vm.v2b vs (.single lo),
+                items := vm.items ++ [(.single lo, vs)] }
+    else
+      { vm with ranges := vm.ranges ++ [(lo, hi, vs)], v2b := dictSet vm.v2b vs (.range lo hi),
+                items := vm.items ++ [(.range lo hi, vs)] }
+
 /-- mirrors _create_for_element: body of `for i, valuemap_str in enumerate(valuemap_list)` -/
 def stepEntry (T : IntType) (vmap values : List Str) (i : Nat) (s : Str) (vm : VM) : Except PyExc VM :=
   match values[i]? with
   | none => .error .indexError                       -- values_list[i]
   | some vs =>
-    if s = ['.', '.'] then
-      .ok { vm with unclaimed := some vs, v2b := dictSet vm.v2b vs .unclaimed,
-                    items := vm.items ++ [(.unclaimed, vs)] }
-    else
-      match valuesTuple T vmap (fuelFor vmap) i with
-      | .error e => .error e
-      | .ok (lo, hi) =>
-        if lo = hi then
-          .ok { vm with single := dictSet vm.single lo vs, v2b := dictSet vm.v2b vs (.single lo),
-                        items := vm.items ++ [(.single lo, vs)] }
-        else
-          .ok { vm with ranges := vm.ranges ++ [(lo, hi, vs)], v2b := dictSet vm.v2b vs (.range lo hi),
-                        items := vm.items ++ [(.range lo hi, vs)] }
+    match entAt T vmap i s with
+    | .error e => .error e
+    | .ok en => .ok (addEnt vm en vs)
 
 /-- the for loop: `rest` is the not yet visited suffix of valuemap_list, `i` its start index -/
 def loop (T : IntType) (vmap values : List Str) : Nat → List Str → VM → Except PyExc VM
@@ -194,6 +217,12 @@ decreasing_by omega
 
 /-- mirrors: `[f"{v}" for v in range(0, len(values_list))]` (no ValueMap qualifier) -/
 def defaultMap (n : Nat) : List Str := (List.range n).map decStr
+
+/-- mirrors _create_for_element: `valuemap_qual.value`, or the DSP0004 default when there is no ValueMap -/
+def effMap (valuemap : Option (List Str)) (n : Nat) : List Str :=
+  match valuemap with
+  | some m => m
+  | none => defaultMap n
 
 /-- mirrors _create_for_element: "Verify and adjust the valuemap and values arrays" -/
 def reconcile (values vmap : List Str) (vd : Option Str) : Except PyExc (List Str) :=
@@ -221,9 +250,7 @@ def create (e : Elem) (vd : Option Str) : Except PyExc VM :=
     match e.values with
     | none => .error .valueError                     -- no Values qualifier
     | some values0 =>
-      let vmap := match e.valuemap with
-        | some m => m
-        | none => defaultMap values0.length
+      let vmap := effMap e.valuemap values0.length
       match reconcile values0 vmap vd with
       | .error x => .error x
       | .ok values => loop T vmap values 0 vmap {}
@@ -279,6 +306,14 @@ def parseEntry (s : Str) : Option Raw :=
     | some lo, some hi => some (.range lo hi)
     | _, _ => none
 
+/-- all entries parsed, or none when one is malformed -/
+def parseAll : List Str → Option (List Raw)
+  | [] => some []
+  | s :: rest =>
+    match parseEntry s, parseAll rest with
+    | some r, some rs => some (r :: rs)
+    | _, _ => none
+
 /-- the closed upper end an entry offers to its right neighbour -/
 def closedHi : Raw → Option Int
   | .single n => some n
@@ -309,9 +344,6 @@ def specHi (T : IntType) (raws : List Raw) (i : Nat) : Raw → Option Int
          match raws[i + 1]? with
          | some p => (closedLo p).map (· - 1)
          | none => none
-
-/-- a resolved entry: none = the unclaimed marker, some (lo, hi) = the values it claims -/
-abbrev Ent := Option (Int × Int)
 
 def resolveAt (T : IntType) (raws : List Raw) (i : Nat) (r : Raw) : Option Ent :=
   match r with
@@ -377,13 +409,11 @@ def specCreate (e : Elem) (vd : Option Str) : Except PyExc (List Ent × List Str
     match e.values with
     | none => .error .valueError
     | some values0 =>
-      let vmap := match e.valuemap with
-        | some m => m
-        | none => defaultMap values0.length
+      let vmap := effMap e.valuemap values0.length
       match reconcile values0 vmap vd with
       | .error x => .error x
       | .ok values =>
-        match vmap.mapM parseEntry with
+        match parseAll vmap with
         | none => .error .modelError
         | some raws =>
           match resolve T raws with
